@@ -1645,6 +1645,13 @@ let natural pycast infer value =
         | Raise e -> Raise e))
   | Raise e -> Raise e
 
+(** val commit : var -> (pyval list * exn option) -> var * exn option **)
+
+let commit v r =
+  match snd r with
+  | Some e -> (v, (Some e))
+  | None -> ((with_data v (fst r)), None)
+
 (** val assign_inplace :
     (dtype -> pyval -> pyval outcome) -> (dtype -> dtype -> pyval -> pyval
     outcome) -> var -> nat list -> operand -> var * exn option **)
@@ -1664,8 +1671,7 @@ let assign_inplace pycast arrcast v ps value =
       | Ret a ->
         let (sh, cells) = a in
         if list_eq_dec Nat.eq_dec sh (k :: [])
-        then let (d, e) = write_cells (pycast v.vdtype) ps cells v.vdata in
-             ((with_data v d), e)
+        then commit v (write_cells (pycast v.vdtype) ps cells v.vdata)
         else if negb (Nat.eqb (length sh) (S O))
              then (v, (Some ValueError))
              else (match cast_all (pycast v.vdtype) cells with
@@ -1683,8 +1689,7 @@ let assign_inplace pycast arrcast v ps value =
       | Ret a ->
         let (sh, cells) = a in
         if list_eq_dec Nat.eq_dec sh (k :: [])
-        then let (d, e) = write_cells (pycast v.vdtype) ps cells v.vdata in
-             ((with_data v d), e)
+        then commit v (write_cells (pycast v.vdtype) ps cells v.vdata)
         else if negb (Nat.eqb (length sh) (S O))
              then (v, (Some ValueError))
              else (match cast_all (pycast v.vdtype) cells with
@@ -1699,9 +1704,7 @@ let assign_inplace pycast arrcast v ps value =
       | Raise e -> (v, (Some e)))
    | OArr (sh, dt, cells) ->
      (match bcast_arr k sh cells with
-      | Some cs ->
-        let (d, e) = write_cells (arrcast dt v.vdtype) ps cs v.vdata in
-        ((with_data v d), e)
+      | Some cs -> commit v (write_cells (arrcast dt v.vdtype) ps cs v.vdata)
       | None -> (v, (Some ValueError))))
 
 (** val assign_item :
@@ -2011,6 +2014,24 @@ let alternatives hint cands =
   | Some h -> filter (fun x -> eqb0 (lower x) h) cands
   | None -> []
 
+(** val is_property : ckind -> char list -> bool **)
+
+let is_property k name =
+  (||)
+    ((||)
+      ((||)
+        ((||) (eqb0 name ('s'::('t'::('r'::('i'::('c'::('t'::[])))))))
+          (eqb0 name ('v'::('a'::('l'::('u'::('e'::('s'::[]))))))))
+        (eqb0 name ('s'::('i'::('z'::('e'::[]))))))
+      (eqb0 name ('n'::('b'::('y'::('t'::('e'::('s'::[]))))))))
+    (match k with
+     | CLinker _ ->
+       (||)
+         ((||) (eqb0 name ('s'::('i'::('z'::('e'::('s'::[]))))))
+           (eqb0 name ('L'::('A'::('G'::('S'::[]))))))
+         (eqb0 name ('L'::('E'::('A'::('D'::('S'::[]))))))
+     | _ -> false)
+
 (** val setattr :
     (dtype -> pyval -> pyval outcome) -> (dtype -> dtype -> pyval -> pyval
     outcome) -> (pyval list -> dtype) -> char list -> operand -> char list
@@ -2018,11 +2039,8 @@ let alternatives hint cands =
 
 let setattr pycast arrcast infer name value hint s =
   if (&&)
-       ((&&)
-         ((&&)
-           (negb (eqb0 name ('s'::('t'::('r'::('i'::('c'::('t'::[]))))))))
-           s.strict) (negb (mem name s.index)))
-       (negb (reg_mem name s.registry))
+       ((&&) ((&&) (negb (is_property s.kind name)) s.strict)
+         (negb (mem name s.index))) (negb (reg_mem name s.registry))
   then (match alternatives hint (row_names s) with
         | [] -> err s AttributeError
         | _ :: l ->
@@ -2662,6 +2680,34 @@ let alias_read am q s =
        | Ret n0 -> Ret (VNat n0)
        | Raise e -> Raise e))
 
+(** val dict_key : state -> char list -> bool **)
+
+let dict_key s k =
+  (||)
+    ((||)
+      ((||)
+        (mem k
+          (('s'::('p'::('a'::('n'::[])))) :: (('i'::('n'::('d'::('e'::('x'::[]))))) :: (('_'::('s'::('t'::('r'::('i'::('c'::('t'::[]))))))) :: (('_'::('a'::('t'::('t'::('r'::('i'::('b'::('u'::('t'::('e'::('s'::[]))))))))))) :: (('a'::('l'::('i'::('a'::('s'::('e'::('s'::[]))))))) :: (('p'::('r'::('e'::('f'::('e'::('r'::('r'::('e'::('d'::('_'::('n'::('a'::('m'::('e'::('s'::[]))))))))))))))) :: [])))))))
+        (match s.kind with
+         | CLinker _ ->
+           mem k
+             (('s'::('u'::('b'::('m'::('o'::('d'::('e'::('l'::('s'::[]))))))))) :: (('n'::('a'::('m'::('e'::[])))) :: (('_'::('L'::('A'::('G'::('S'::[]))))) :: (('_'::('L'::('E'::('A'::('D'::('S'::[])))))) :: []))))
+         | _ -> false))
+      (match assoc k s.adict with
+       | Some _ -> true
+       | None -> false))
+    ((&&) (underscored k)
+      (match assoc (tail_of k) s.vars with
+       | Some _ -> true
+       | None -> false))
+
+(** val alias_clash : char list list -> aobj -> state -> bool **)
+
+let alias_clash classattrs am s =
+  existsb (fun k ->
+    (||) ((||) (mem k s.index) (dict_key s k)) (mem k classattrs))
+    (akeys am.amap)
+
 (** val gen_alias_step :
     (dtype -> pyval -> pyval outcome) -> (dtype -> dtype -> pyval -> pyval
     outcome) -> (pyval list -> dtype) -> (dtype -> pyval list -> dreq ->
@@ -2675,12 +2721,20 @@ let gen_alias_step pycast arrcast infer astype_dt itemseq_exn am o s =
 (** val gen_alias_init_model :
     (dtype -> pyval -> pyval outcome) -> (dtype -> dtype -> pyval -> pyval
     outcome) -> (pyval list -> dtype) -> (dtype -> pyval list -> dreq ->
-    dtype) -> aobj -> ckind -> z list -> bool -> dreq -> operand -> char list
-    list -> (char list * operand) list -> res **)
+    dtype) -> char list list -> aobj -> ckind -> z list -> bool -> dreq ->
+    operand -> char list list -> (char list * operand) list -> res **)
 
-let gen_alias_init_model pycast arrcast infer astype_dt am k sp st d default nAMES kwargs =
-  init_model pycast arrcast infer astype_dt k sp st d default nAMES
-    (resolve_kwargs am kwargs)
+let gen_alias_init_model pycast arrcast infer astype_dt classattrs am k sp st d default nAMES kwargs =
+  let (s, o) =
+    init_model pycast arrcast infer astype_dt k sp st d default nAMES
+      (resolve_kwargs am kwargs)
+  in
+  (match o with
+   | Ret u ->
+     if alias_clash classattrs am s
+     then (s, (Raise InitialisationError))
+     else (s, (Ret u))
+   | Raise e -> (s, (Raise e)))
 
 (** val alias_step : aobj -> op -> state -> res **)
 
@@ -2688,8 +2742,8 @@ let alias_step =
   gen_alias_step np_pycast np_arrcast np_infer np_astype_dt np_itemseq_exn
 
 (** val alias_init_model :
-    aobj -> ckind -> z list -> bool -> dreq -> operand -> char list list ->
-    (char list * operand) list -> res **)
+    char list list -> aobj -> ckind -> z list -> bool -> dreq -> operand ->
+    char list list -> (char list * operand) list -> res **)
 
 let alias_init_model =
   gen_alias_init_model np_pycast np_arrcast np_infer np_astype_dt
